@@ -640,6 +640,7 @@ func (nfs *Nfs) NFSPROC3_RENAME(args nfstypes.RENAME3args) nfstypes.RENAME3res {
 	var toinum common.Inum
 	var success bool = false
 	var done bool = false
+	var from *inode.Inode
 
 	for !success {
 		op = fstxn.Begin(nfs.fsstate)
@@ -708,7 +709,6 @@ func (nfs *Nfs) NFSPROC3_RENAME(args nfstypes.RENAME3args) nfstypes.RENAME3res {
 		if toinum != common.NULLINUM {
 			// must lock 3 or 4 inodes in order
 			var to *inode.Inode
-			var from *inode.Inode
 			op.Abort()
 			op = fstxn.Begin(nfs.fsstate)
 			if dipto != dipfrom {
@@ -770,6 +770,31 @@ func (nfs *Nfs) NFSPROC3_RENAME(args nfstypes.RENAME3args) nfstypes.RENAME3res {
 			} else { // retry
 				op.Abort()
 			}
+		} else if dipto != dipfrom {
+			// The source moves to another directory. If it is a directory
+			// its ".." must follow, so lock it too (in order) and revalidate.
+			op.Abort()
+			op = fstxn.Begin(nfs.fsstate)
+			inums := make([]common.Inum, 3)
+			inums[0] = dipfrom.Inum
+			inums[1] = dipto.Inum
+			inums[2] = frominum
+			inodes = lockInodes(op, inums)
+			if inodes == nil {
+				// one of the inodes was freed meanwhile; start over
+				continue
+			}
+			dipfrom = inodes[0]
+			dipto = inodes[1]
+			from = inodes[2]
+			fi, _ := dir.LookupName(dipfrom, op, args.From.Name)
+			ti, _ := dir.LookupName(dipto, op, args.To.Name)
+			if dipfrom.Gen != fromh.Gen || dipto.Gen != toh.Gen ||
+				fi != frominum || ti != common.NULLINUM {
+				op.Abort()
+				continue
+			}
+			success = true
 		} else {
 			success = true
 		}
@@ -786,6 +811,18 @@ func (nfs *Nfs) NFSPROC3_RENAME(args nfstypes.RENAME3args) nfstypes.RENAME3res {
 	if !ok1 {
 		errRet(op, &reply.Status, nfstypes.NFS3ERR_IO)
 		return reply
+	}
+	if dipto != dipfrom && from != nil && from.Kind == nfstypes.NF3DIR {
+		// a directory changed parent: repoint its ".." and move the link
+		// that ".." holds from the old parent to the new one
+		if !dir.RemName(from, op, "..") || !dir.AddName(from, op, dipto.Inum, "..") {
+			errRet(op, &reply.Status, nfstypes.NFS3ERR_IO)
+			return reply
+		}
+		dipfrom.Nlink = dipfrom.Nlink - 1
+		dipfrom.WriteInode(op.Atxn)
+		dipto.Nlink = dipto.Nlink + 1
+		dipto.WriteInode(op.Atxn)
 	}
 	commitReply(op, &reply.Status)
 	return reply
